@@ -816,6 +816,19 @@ func (x *Exec) havocLvalueIn(st *State, m string, env *Env) {
 		}
 		return
 	}
+	if strings.HasPrefix(m, "*") {
+		// *v where v is an interface value holding a slice: the slice's elements
+		if v, err := env.evalString(strings.TrimSpace(m[1:])); err == nil && v.T != nil && isInterface(v.T) && len(v.L) == 1 {
+			if bv, ok := env.st.boxed[v.L[0].S]; ok && isSlice(bv.T) {
+				sl := bv.T.Underlying().(*types.Slice)
+				for _, lf := range flatten(sl.Elem()) {
+					cur := x.heapCurE(st, "M", sl.Elem(), lf)
+					x.heapSet(st, "M", sl.Elem(), lf, mkStore(cur, bv.sliceArr(), x.fresh(st, "mod_mem", arrSort(lf.Sort))))
+				}
+				return
+			}
+		}
+	}
 	p, err := env.evalAddr(m)
 	if err != nil {
 		panic(fmt.Sprintf("modifies %s: %v", m, err))
